@@ -94,6 +94,8 @@ type NamedOpts struct {
 	Embedded           bool
 	Skipped            bool
 	SingleLetterNum, SingleLetterDen int // probability of a single-letter token (finding 8 shapes)
+	OddTags                          []string // dials tags outside the word styles (only separators, leading/trailing separators, empty)
+	OddTagNum, OddTagDen             int      // probability that a tagged field gets one of them
 }
 
 // GenName draws a Go field name made of 1-3 tokens.
@@ -208,7 +210,9 @@ func GenNamedStruct(r *coqfmt.Rng, o NamedOpts, nd, td *NameDict, depth int) ref
 			isLeaf = true
 		}
 		var tags []string
-		if sf.Tag == "" && sf.PkgPath == "" && o.TagDen > 0 && r.Chance(o.TagNum, o.TagDen) {
+		if sf.Tag == "" && sf.PkgPath == "" && len(o.OddTags) > 0 && o.OddTagDen > 0 && r.Chance(o.OddTagNum, o.OddTagDen) {
+			tags = append(tags, fmt.Sprintf(`dials:"%s"`, coqfmt.Pick(r, o.OddTags)))
+		} else if sf.Tag == "" && sf.PkgPath == "" && o.TagDen > 0 && r.Chance(o.TagNum, o.TagDen) {
 			for {
 				tag, toks := GenTag(r, o)
 				if td.Add(tag, toks) {
@@ -254,3 +258,20 @@ func IsTextU(t reflect.Type) bool { return t == tTUp || t == tTUv }
 
 // TextUTypes returns the palette's TextUnmarshaler struct types (pointer receiver, value receiver).
 func TextUTypes() (reflect.Type, reflect.Type) { return tTUp, tTUv }
+
+// ---- named versions of every scalar kind a source supports ----
+// (the named types themselves live in rty.go and xform.go; uintptr is added here)
+
+type NUintptr uintptr
+
+// NamedScalars lists a named type for every scalar kind.  NDur has duration
+// KIND only: it is an int64 for every source, not a time.Duration.
+func NamedScalars() []reflect.Type {
+	return []reflect.Type{
+		reflect.TypeOf(NBool(false)), reflect.TypeOf(NName("")),
+		reflect.TypeOf(NInt(0)), reflect.TypeOf(NInt8(0)), reflect.TypeOf(NInt16(0)), reflect.TypeOf(NInt32(0)), reflect.TypeOf(NCount(0)),
+		reflect.TypeOf(NUint(0)), reflect.TypeOf(NLevel(0)), reflect.TypeOf(NUint16(0)), reflect.TypeOf(NUint32(0)), reflect.TypeOf(NUint64(0)),
+		reflect.TypeOf(NUintptr(0)), reflect.TypeOf(NF32(0)), reflect.TypeOf(NF64(0)), reflect.TypeOf(NC64(0)), reflect.TypeOf(NC128(0)),
+		reflect.TypeOf(NDur(0)),
+	}
+}
